@@ -128,6 +128,11 @@ def gen_string(rng, t):
         lit = str(v)
         if rng.random() < 0.15:
             lit = ('-' if v < 0 else '') + '0' * rng.randrange(1, 30) + str(abs(v))
+        elif rng.random() < 0.06:
+            # literals longer than any fixed scratch buffer (60..600 characters): same value, or out of range
+            lit = ('-' if v < 0 else '') + '0' * rng.choice([60, 63, 64, 65, 100, 127, 128, 129, 255, 256, 300, 600]) + str(abs(v))
+        elif rng.random() < 0.03:
+            lit = ('-' if v < 0 else '') + str(abs(v) + 1) + ''.join(rng.choice('0123456789') for _ in range(rng.choice([60, 64, 70, 130, 300])))
         if rng.random() < 0.08:
             lit = '+' + lit.lstrip('-')
         if rng.random() < 0.1:
@@ -142,7 +147,9 @@ def gen_string(rng, t):
     elif k < 0.25:
         lit = rng.choice(['', '-', '.', '-.', 'e5', '.e5', 'abc', '--1', '0x10', '0x1p3', '1e', '1e+', '1.e', '1.e5', '.5', '5.', '-.5e-3', '1e5000', '1e-5000', '-1e5000', '0e5000', '0.0e99999'])
     else:
-        digits = ''.join(rng.choice('0123456789') for _ in range(rng.choice([1, 2, 3, 7, 8, 9, 15, 16, 17, 18, 25, 40])))
+        digits = ''.join(rng.choice('0123456789') for _ in range(rng.choice([1, 2, 3, 7, 8, 9, 15, 16, 17, 18, 25, 40] if rng.random() < 0.92 else [60, 64, 65, 70, 100, 128, 129, 260, 400, 800])))
+        if rng.random() < 0.05:
+            digits = '0' * rng.choice([61, 64, 67, 130, 300]) + digits
         p = rng.randrange(0, len(digits) + 1)
         lit = digits[:p] + ('.' + digits[p:] if rng.random() < 0.7 else digits[p:])
         if lit.startswith('.') and rng.random() < 0.5:
